@@ -431,14 +431,15 @@ def srv_expiry_reported_for_every_listing(ctx, P, pre):
 
 
 # ------------------------------------------------------------------------------------------------
-def events_are_lossless(ctx, P, pre, chan_suffix="ServiceEvent", floor=5):
+def events_are_lossless(ctx, P, pre, chan_suffix="ServiceEvent", floor=5, only_fn=None):
     """the events of a search are a history the client replays (ServiceFound before ServiceResolved, one ServiceRemoved per
     withdrawal, SearchStopped last): every send on such a channel is the lossless `send`, never `try_send` /
     `send_timeout`, which drop the event when the client's bounded channel happens to be full"""
     n = 0
     per = {}
+    label = chan_suffix if isinstance(chan_suffix, str) else "/".join(chan_suffix)
     for f in P.lib_fns():
-        if f.in_tests():
+        if f.in_tests() or (only_fn and not name_matches(f.name, only_fn)):
             continue
         for em in direct_sends(P, f):
             if not str(em.chan).endswith(chan_suffix):
@@ -446,10 +447,10 @@ def events_are_lossless(ctx, P, pre, chan_suffix="ServiceEvent", floor=5):
             n += 1
             per[f.name] = per.get(f.name, 0) + 1
             ctx.ob(pre + ".events-lossless", "%s|send#%d" % (f.name, per[f.name]), em.blocking, f.loc(em.bb),
-                   "%s is delivered with Sender::send (%s)" % (chan_suffix, ", ".join(sorted(x for x in em.names() if isinstance(x, str))[:4]) or "forwarded event") if em.blocking else
+                   "%s is delivered with Sender::send (%s)" % (label, ", ".join(sorted(x for x in em.names() if isinstance(x, str))[:4]) or "forwarded event") if em.blocking else
                    "%s sent with %s: the event is dropped when the client's channel is full, and later events of the same instance "
-                   "(ServiceResolved after a lost ServiceFound) arrive without it" % (chan_suffix, method(cname(em.t))))
-    ctx.floor(pre + ".events-lossless", n, floor, "sends on %s channels" % chan_suffix)
+                   "(ServiceResolved after a lost ServiceFound) arrive without it" % (label, method(cname(em.t))))
+    ctx.floor(pre + ".events-lossless", n, floor, "sends on %s channels" % label)
 
 
 # ------------------------------------------------------------------------------------------------
@@ -933,3 +934,117 @@ def subtype_map_pruned_on_every_sweep(ctx, P, pre):
            "every sweep prunes DnsCache.subtype unless it is empty" if not bypass else
            "a sweep can end without pruning DnsCache.subtype although it has entries (the pruning is skipped on a condition about something "
            "else): the entries of instances whose PTRs ran out stay for ever")
+
+
+# ------------------------------------------------------------------------------------------------
+def every_answer_reaches_the_cache(ctx, P, pre):
+    """`is_for_us` only decides whether a record may create a NEW cache entry; records of names that are already cached
+    must still get their TTL refresh, goodbye and cache-flush.  So handle_response hands every answer to
+    DnsCache::add_or_update whatever is_for_us says: no path leaves the function before the caching loop except when the
+    receiving interface is unknown"""
+    f = P.one("Zeroconf::handle_response")
+    calls = calls_to(f, "DnsCache::add_or_update")
+    ctx.require(len(calls) >= 1, pre + ".anchor", f.name + "|add_or_update", f.loc(), "%d call(s)" % len(calls))
+    if not calls:
+        return
+    head = lift_to_inner_loop(f, calls[0][0])
+    allowed = guard_edges(P, f, lambda atom, outcome, bb: atom[0] == "variant" and outcome == frozenset(["None"]) and expr_mentions_field(atom[1], "my_intfs", "Zeroconf"))
+    reach = f.reachable(0, removed_blocks=[head], removed_edges=allowed)
+    early = [f.loc(r) for r in reach if f.term(r)["k"] == "return"]
+    ctx.ob(pre + ".every-answer-reaches-the-cache", f.name, not early, f.loc(head),
+           "every path through handle_response (known interface) enters the loop that hands the answers to add_or_update" if not early else
+           "handle_response can return before the caching loop (%s): records of names that are already cached miss their TTL refresh, "
+           "goodbye and cache-flush" % early[:2])
+
+
+def verify_always_shortens(ctx, P, pre):
+    """verify(instance, timeout) always reaches DnsCache::service_verify_queries (which shortens the expiry of the
+    instance's SRV and addresses): no early return for a kind of browse or instance"""
+    f = P.one("Zeroconf::exec_command_verify")
+    calls = calls_to(f, "DnsCache::service_verify_queries")
+    ok = len(calls) == 1 and all_paths_to_return_pass(f, 0, [calls[0][0]], include_from=True) and not _returns_without_block(f, calls[0][0])
+    ctx.ob(pre + ".verify-always-shortens", f.name, ok, f.loc(),
+           "every path through exec_command_verify calls service_verify_queries" if ok else
+           "exec_command_verify can return without calling service_verify_queries: for those instances an unanswered verify removes nothing")
+
+
+def _returns_without_block(f, b):
+    reach = f.reachable(0, removed_blocks=[b])
+    return any(f.term(r)["k"] == "return" for r in reach)
+
+
+def refresh_result_is_per_record(ctx, P, pre):
+    """DnsCache::refresh_due_hostname_resolutions returns one entry per due address RECORD (name, address): the caller asks one
+    question per entry, A or AAAA by the address's family.  A map keyed by the host name keeps one family only"""
+    f = P.one("DnsCache::refresh_due_hostname_resolutions")
+    ty = str(f.ret or "")
+    ok = ("HashSet<(" in ty or "Vec<(" in ty or "BTreeSet<(" in ty) and "HashMap<" not in ty.split("(")[0]
+    ctx.ob(pre + ".refresh-result-is-per-record", f.name, ok, f.loc(), "returns %s" % ty[:90] if ok else
+           "returns %s: keyed by host name, so of a dual-stack host only one address family is re-queried and the other runs out" % ty[:90])
+
+
+def goodbye_independent_of_reply_and_state_order(ctx, P, pre):
+    """exec_command_unregister: once the service was found (remove_entry is Some) the goodbye loop runs on every path — it
+    does not depend on whether the caller still listens for the status — and nothing edits DnsRegistry.name_changes before
+    the goodbye is built (unregister_service reads it to name the records)"""
+    f = P.one("Zeroconf::exec_command_unregister")
+    rem = [(b, t) for b, t in f.calls() if name_matches(cname(t), "HashMap::remove_entry", "HashMap::remove") and recv_mentions(P, f, b, t, "my_services", "Zeroconf")]
+    gb = calls_to(f, "Zeroconf::unregister_service")
+    ctx.require(len(rem) == 1 and len(gb) >= 1, pre + ".anchor", f.name + "|remove + goodbye", f.loc(), "%d/%d" % (len(rem), len(gb)))
+    if len(rem) != 1 or not gb:
+        return
+    rb = rem[0][0]
+    e_some = guard_edges(P, f, lambda atom, outcome, bb: atom[0] == "variant" and atom[1][0] == "call" and atom[1][3] == (f.name, rb) and outcome == frozenset(["Some"]))
+    srcs = {b for (b, _t) in e_some}
+    e_some = {(b, t) for (b, t) in e_some if not any(o != b and f.dominates(o, b) for o in srcs)}
+    head = lift_to_inner_loop(f, gb[0][0])
+    ok = bool(e_some)
+    for (b, tgt) in e_some:
+        reach = f.reachable(tgt, removed_blocks=[head])
+        if any(f.term(r)["k"] == "return" for r in reach):
+            ok = False
+    ctx.ob(pre + ".goodbye-whatever-the-reply", f.name, ok, f.loc(head),
+           "every path after a successful removal enters the goodbye loop" if ok else
+           "after the service was removed a path returns without the goodbye loop (e.g. when the status reply cannot be delivered): the "
+           "records stay announced")
+    edits = [f.loc(b) for b, t in f.calls() if "HashMap" in cname(t) and method(cname(t)) in ("remove", "remove_entry", "clear", "insert", "retain") and
+             recv_mentions(P, f, b, t, "name_changes", "DnsRegistry") and any(g in f.reachable(b) for g, _t in gb)]
+    ctx.ob(pre + ".names-intact-until-goodbye", f.name, not edits, f.loc(),
+           "DnsRegistry.name_changes is not edited before the goodbye is built" if not edits else
+           "DnsRegistry.name_changes is edited at %s before unregister_service reads it: the goodbye of a renamed service goes out under the "
+           "name it lost" % edits)
+
+
+def both_families_every_interface(ctx, P, pre, fnames=("Zeroconf::cleanup", "Zeroconf::exec_command_unregister")):
+    """the goodbye is sent over IPv4 and over IPv6 on every interface: after the IPv4 goodbye of an interface every path goes on
+    to the test of the IPv6 socket (no `continue` in between)"""
+    for name in fnames:
+        f = P.one(name)
+        tr = tracer(P, f)
+        gb = [(b, t) for b, t in calls_to(f, "Zeroconf::unregister_service")]
+        v4 = [b for b, t in gb if expr_mentions_field(tr.operand(t["args"][3], endpos(f, b)), "ipv4_sock", "Zeroconf")]
+        t6 = {b for (b, _t) in guard_edges(P, f, lambda atom, outcome, bb: atom[0] == "variant" and expr_mentions_field(atom[1], "ipv6_sock", "Zeroconf"))}
+        loops = f.loops()
+        ok = bool(v4) and bool(t6)
+        for b in v4:
+            heads = [h for h, body in loops.items() if b in body]
+            if not heads:
+                ok = False
+                continue
+            h = min(heads, key=lambda x: len(loops[x]))
+            # from the IPv4 goodbye back to the loop head without passing the IPv6 test?
+            seen = {b}
+            st = [b]
+            while st:
+                x = st.pop()
+                for s_ in f.succs(x):
+                    if s_ in t6 or s_ in seen or s_ not in loops[h]:
+                        continue
+                    if s_ == h:
+                        ok = False
+                        continue
+                    seen.add(s_)
+                    st.append(s_)
+        ctx.ob(pre + ".both-families-every-interface", f.name, ok, f.loc(v4[0]) if v4 else f.loc(),
+               "after the IPv4 goodbye of an interface the IPv6 socket is always tried" if ok else
+               "an iteration can go back to the next interface after the IPv4 goodbye without trying IPv6: services are withdrawn on one family only")
